@@ -528,7 +528,7 @@ def run(rep, tier, seed, only=None):
         "the factor x of the left-hand side is the convolution point of the scheme (C09 / sec_convolution_point)",
     )
     rep.stub("scipy.integrate.quad -> recording stub", "eko.interpolation.(log_)evaluate_x and BasisFunction -> uninterpreted p_j(u)", "Combiner / coefficient objects -> abstract kernels (compute_local)", "conv.convolution / convolve_vector replaced by their contracts in their callers")
-    for nm, f in (("quad_kers", sec_quad_kers), ("convolution", sec_convolution), ("vector", sec_convolve_vector), ("compute_local", sec_compute_local), ("drop_empty", sec_drop_empty), ("point", sec_convolution_point), ("weightsframe", H.weights_frame)):
+    for nm, f in (("quad_kers", sec_quad_kers), ("convolution", sec_convolution), ("vector", sec_convolve_vector), ("compute_local", sec_compute_local), ("drop_empty", sec_drop_empty), ("point", sec_convolution_point), ("weightsframe", H.weights_frame), ("schemedispatch", lambda r: H.scheme_families(r, tier)), ("distributions", lambda r: __import__("contracts.c03", fromlist=["x"]).sec_sites(r, tier))):
         if only and only not in nm:
             continue
         rep.add(guarded(f"C01/{nm}", lambda f=f: (f(rep), [])[1]))
